@@ -21,15 +21,18 @@ const (
 	sigOrBranch            = "C07/rows-missing/or-branch-ignored"
 	sigInListOrder         = "C07/order-not-sorted/in-list-order"
 	sigDeleteDeleted       = "C07/panic/delete-of-deleted-document-with-index"
-	sigInUnclosed          = "C07/query-panic/in-iterator-left-open-by-limit"
-	sigLikeOnBlob          = "C07/error-only-indexed/like-on-blob"
+	sigInUnclosed          = "C07/query-panic/in-iterator-left-open"
+	sigBlobMatcher         = "C07/error-only-indexed/blob-value-matcher"
+	sigRelNullOwner        = "C07/rows-missing/relation-filter-inverted-join-null-relation"
+	sigJSONRootOnLeaves    = "C07/rows-missing/json-root-condition-matched-on-leaves"
 	sigCompositeArrayEmpty = "C07/rows-missing/composite-index-array-null-or-empty"
 	sigInNullUnique        = "C07/rows-missing/in-null-on-unique-index"
+	sigCompositeArrayDup   = "C07/rows-duplicated/composite-index-array-order-only"
 	sigShowDeletedOrder    = "C07/order-not-sorted/show-deleted-with-index-order"
 )
 
 var switchSigs = []string{sigJSONNullPanic, sigAllEmptyArray, sigInDuplicates, sigNlikeNull, sigJSONPathScanErr,
-	sigOrBranch, sigInListOrder, sigDeleteDeleted, sigInUnclosed, sigLikeOnBlob, sigCompositeArrayEmpty, sigInNullUnique, sigShowDeletedOrder}
+	sigOrBranch, sigInListOrder, sigDeleteDeleted, sigInUnclosed, sigBlobMatcher, sigRelNullOwner, sigScanOrderLaterKey, sigJSONRootOnLeaves, sigCompositeArrayEmpty, sigCompositeArrayDup, sigInNullUnique, sigShowDeletedOrder}
 
 func pick[T any](t *rapid.T, label string, xs []T) T {
 	return xs[rapid.IntRange(0, len(xs)-1).Draw(t, label)]
@@ -58,7 +61,10 @@ func drawIndexes(t *rapid.T, avoid func(string) bool) []IndexSpec {
 			if seen[f] {
 				continue
 			}
-			if nf > 1 && fdef(f).Arr && avoid(sigCompositeArrayEmpty) {
+			if nf > 1 && fdef(f).Arr && (avoid(sigCompositeArrayEmpty) || avoid(sigCompositeArrayDup)) {
+				continue
+			}
+			if f == "bl" && avoid(sigBlobMatcher) {
 				continue
 			}
 			seen[f] = true
@@ -340,9 +346,6 @@ func (g *gen) fillCmp(leaf *F, kind, poolName string, ops []string) {
 	if (leaf.Cmp == "_nlike" || leaf.Cmp == "_nilike") && g.avoid(sigNlikeNull) {
 		leaf.Cmp = "_like"
 	}
-	if isLike(leaf.Cmp) && kind == "blob" && g.avoid(sigLikeOnBlob) {
-		leaf.Cmp = "_eq"
-	}
 	switch {
 	case isLike(leaf.Cmp):
 		leaf.Val = g.likePattern(kind)
@@ -403,6 +406,12 @@ func (g *gen) leaf() *F {
 		if chance(t, "viarel", 30) {
 			leaf.Path = []string{"name"}
 			leaf.Cmp = pick(t, "relcmp", []string{"_eq", "_ne", "_in"})
+			if leaf.Cmp == "_in" && g.avoid(sigInUnclosed) {
+				leaf.Cmp = "_eq"
+			}
+			if leaf.Cmp == "_ne" && g.avoid(sigRelNullOwner) {
+				leaf.Cmp = "_eq"
+			}
 			if leaf.Cmp == "_in" {
 				leaf.Vals = []string{jsonText(pick(t, "on", ownerNames)), jsonText(pick(t, "on2", ownerNames))}
 				if g.avoid(sigInDuplicates) && leaf.Vals[0] == leaf.Vals[1] {
@@ -468,6 +477,12 @@ func (g *gen) leaf() *F {
 				leaf.Vals = dedupe(leaf.Vals)
 			}
 		}
+		if len(leaf.Path) == 0 && leaf.Arr == "" && g.avoid(sigJSONRootOnLeaves) && leaf.Cmp != "_eq" && leaf.Cmp != "_in" {
+			leaf.Cmp, leaf.Cmp2, leaf.Val2 = "_eq", "", ""
+			if leaf.Val == "" {
+				leaf.Val = "1"
+			}
+		}
 		if len(leaf.Path) == 0 && leaf.Arr == "" && chance(t, "jsonwhole", 40) && (leaf.Cmp == "_eq" || leaf.Cmp == "_ne") {
 			// compare the whole JSON value
 			leaf.Val = g.value(f, 10)
@@ -476,6 +491,14 @@ func (g *gen) leaf() *F {
 		g.fillCmp(leaf, f.Kind, name, opsFor(f))
 	}
 	return leaf
+}
+
+func hasRelIn(f *F) bool {
+	found := false
+	walkLeaves(f, false, func(l *F, underNot bool) {
+		found = found || (l.Cmp == "_in" && !underNot && fdef(l.Field).Kind == "rel" && len(l.Path) > 0)
+	})
+	return found
 }
 
 func hasIn(f *F) bool {
@@ -547,6 +570,9 @@ func (g *gen) query() Query {
 	}
 	if len(ordFields) > 0 && chance(t, "ordered", 45) {
 		n := pick(t, "nord", []int{1, 1, 1, 2})
+		if g.avoid(sigScanOrderLaterKey) {
+			n = 1
+		}
 		seen := map[string]bool{}
 		for k := 0; k < n; k++ {
 			var f string
